@@ -160,6 +160,18 @@ def cases():
                 yield dict(name="reuse-in-block-then-redef", d=d, u=w, expect=False, src=render({d: ["x := 5"], u: ["x, zz9 := 6, 7"], w: ["var x int = 9"]}))
                 yield dict(name="reuse-in-block-then-redef-short", d=d, u=w, expect=False, src=render({d: ["x := 5"], u: ["x, zz9 := 6, 7"], w: ["x := 9"]}))
                 yield dict(name="reuse-in-block-new-name-gone", d=d, u=w, expect=False, src=render({d: ["x := 5"], u: ["x, zz9 := 6, 7"], w: ["print(zz9)"]}))
+    # 1c. loop-header variables defined from a call with SEVERAL results (round 11: C07-D, that form of the header stored its variables
+    #     in the enclosing block): usable in the loop, gone behind it, and the names are free again there
+    PAIR = "func pair2() (int, int) {\n\treturn 1, 2\n}\n"
+    for u in SLOTS:
+        hdr = "for var a9, b9 = pair2(); a9 < b9; a9++ {"
+        yield dict(name="for-call-header-use-inside", d=u, u=u, expect=True, src=PAIR + render({u: [hdr, "\tprint(a9, b9)", "}"]}))
+        yield dict(name="for-call-header-use-after", d=u, u=u, expect=False, src=PAIR + render({u: [hdr, "}", "print(a9)"]}))
+        yield dict(name="for-call-header-second-after", d=u, u=u, expect=False, src=PAIR + render({u: [hdr, "}", "print(b9)"]}))
+        yield dict(name="for-call-header-redefine-after", d=u, u=u, expect=True, src=PAIR + render({u: [hdr, "}", "a9 := 7", "print(a9)"]}))
+        yield dict(name="for-call-header-twice", d=u, u=u, expect=True, src=PAIR + render({u: [hdr, "}", hdr, "}"]}))
+        yield dict(name="for-single-call-header-after", d=u, u=u, expect=False,
+                   src=PAIR + render({u: ["for var c9 = f0(); c9 < 2; c9++ {", "}", "print(c9)"]}).replace("g0 := 1\n", "g0 := 1\nfunc f0() int {\n\treturn 0\n}\n", 1))
     # 2. parameters, loop-header and range variables
     for u in SLOTS:
         in_f = u in (1, 2, 3, 4, 5, 6, 7, 8)
